@@ -37,6 +37,11 @@ var pkgSources = map[string]map[string]string{
 		"e2.mpcl": "package pe\n\nconst B = 2\n\nvar T2 = [2]uint8{41, 42}\n\nfunc E2(x uint8) uint8 {\n\treturn E1(x) + T2[1] + B\n}\n",
 		"e3.mpcl": "package pe\n\nvar T3 = [2]uint8{51, 52}\n\nfunc E3(x uint8) uint8 {\n\treturn E2(x) ^ T3[0]\n}\n",
 	},
+	// two DIFFERENT packages with the same last path component, imported by two different packages
+	"alpha/util": {"util.mpcl": "package util\n\nvar T = [2]uint8{3, 4}\n\nfunc Mask(x uint8) uint8 {\n\treturn x & T[0]\n}\n"},
+	"beta/util":  {"util.mpcl": "package util\n\nvar T = [2]uint8{5, 6}\n\nfunc Mask(x uint8) uint8 {\n\treturn (x >> 1) * T[1]\n}\n"},
+	"left":       {"left.mpcl": "package left\n\nimport (\n\t\"alpha/util\"\n)\n\nfunc L(x uint8) uint8 {\n\treturn util.Mask(x) + 1\n}\n"},
+	"right":      {"right.mpcl": "package right\n\nimport (\n\t\"beta/util\"\n)\n\nfunc R(x uint8) uint8 {\n\treturn util.Mask(x) + 2\n}\n"},
 	// a package importing another harness package (nested init order)
 	"pf": {"pf.mpcl": "package pf\n\nimport (\n\t\"pa\"\n\t\"pb\"\n)\n\nvar Z = [2]uint8{61, 62}\n\nfunc J(x uint8) uint8 {\n\treturn pa.F(x) + pb.F(x) + Z[1]\n}\n"},
 }
@@ -61,6 +66,7 @@ var programs = []struct {
 	{"e", mainProg([]string{"pe"}, "\treturn pe.E3(a) + pe.E2(b)\n")},
 	{"fc", mainProg([]string{"pf", "pc"}, "\treturn pf.J(a) + pc.G(b)\n")},
 	{"consts", "package main\n\nconst (\n\tC1 = 17\n\tC2 = 99\n\tC3 = 250\n)\n\nfunc main(a, b uint8) (uint8, uint8) {\n\tx := a + C1\n\ty := b * C2\n\tif x > C3 {\n\t\treturn x ^ 85, y + 1\n\t}\n\treturn y - 3, x & 7\n}\n"},
+	{"samename", mainProg([]string{"left", "right"}, "\treturn left.L(a) + right.R(b)\n")},
 	{"widths", widthsProg()},
 	{"crypto", mainProg([]string{"crypto/aes", "crypto/hmac"}, "\treturn a + b + aes.BlockSize\n")},
 }
@@ -349,7 +355,7 @@ func work(ctx *runner.Ctx) {
 		emit(cs{Mode: "xproc", Prog: p})
 	}
 	// histories on one Compiler instance / on shared Params
-	hp := []int{0, 1, 2, 3, 4, 5, 6, 7}
+	hp := []int{0, 1, 2, 3, 4, 5, 6, 7, 8}
 	for _, share := range []string{"compiler", "params"} {
 		for _, last := range hp {
 			for _, h1 := range hp {
